@@ -129,8 +129,12 @@ def main(argv=None):
             selftest['variants'], selftest['as_expected']))
     rc = 0
     unlisted = ctx.unlisted()
+    rdir = os.path.join(HERE, 'evidence', 'replay')
+    if os.path.isdir(rdir):
+        for fn in os.listdir(rdir):
+            if fn.startswith(prop + '-'):
+                os.unlink(os.path.join(rdir, fn))
     if unlisted:
-        rdir = os.path.join(HERE, 'evidence', 'replay')
         os.makedirs(rdir, exist_ok=True)
         for i, f in enumerate(unlisted):
             rpath = os.path.join(rdir, '%s-%d.json' % (prop, i))
